@@ -174,6 +174,9 @@ class Resolver:
             name = dotted(e.func)
             if name in ("copy.copy", "copy.deepcopy", "copy", "deepcopy") and len(e.args) == 1:
                 return self.expr_type(f, e.args[0], shallow)
+            # obj = super(K, cls).<this classmethod>(...)  ->  an instance of the class being resumed / built
+            if f.is_classmethod and f.cls is not None and isinstance(e.func, ast.Attribute) and e.func.attr == f.name and isinstance(e.func.value, ast.Call) and isinstance(e.func.value.func, ast.Name) and e.func.value.func.id == "super":
+                return {f.cls}
             r = self.class_of_callable(f, e.func)
             if r is not None:
                 return {r}
